@@ -85,7 +85,9 @@ def run(ctx):
     def sigparams(sig):
         return sig
 
-    for e0, k in honest:
+    file_of = {tuple(e): hexs(f) for f, e, k in files}
+    reread = {}
+    for hi, (e0, k) in enumerate(honest):
         fetch = {certurl: k['chain']}
         variants = []
         def v(**kw):
@@ -151,6 +153,9 @@ def run(ctx):
         for s2 in sigs:
             e = list(e0); e[6] = hexs(s2); variants.append(e)
         for e in variants:
+            # every sixth honest exchange: its variants also as in-place edits of the object ReadExchange returned for the honest file
+            if hi % 6 == 0 and tuple(e0) in file_of and e[0] == e0[0]:
+                reread[len(items)] = file_of[tuple(e0)]
             items.append((e, t_ok, fetch))
         # foreign certificate / chain, times
         items.append((e0, t_ok, {certurl: foreign['chain']}))
@@ -168,5 +173,9 @@ def run(ctx):
         # keep every in-memory variant; sample the file-level mutants
         nfile = sum(1 for _ in items_file_marker)
         keep = set(rng.sample(range(nfile), max(0, 9000 - (len(items) - nfile))))
-        items = [it for i, it in enumerate(items) if i >= nfile or i in keep]
-    verify_stage(ctx, items)
+        remap, out = {}, []
+        for i, it in enumerate(items):
+            if i >= nfile or i in keep:
+                remap[i] = len(out); out.append(it)
+        items, reread = out, {remap[i]: f for i, f in reread.items() if i in remap}
+    verify_stage(ctx, items, reread)
